@@ -1,0 +1,24 @@
+//go:build verif
+
+package meta
+
+// Contracts for fvc (see /verif/DESIGN.md). Comment-only file.
+
+//@ pure contains(fs []string, f string) bool = exists k int :: 0 <= k && k < len(fs) && fs[k] == f
+
+//@ func ContainsFinalizer
+//@   tags C13
+//@   loop 1 invariant -1 <= rangeindex && rangeindex < len(finalizers)
+//@   loop 1 invariant forall k int :: 0 <= k && k <= rangeindex ==> finalizers[k] != finalizer
+//@   ensures [C13] result == contains(finalizers, finalizer)
+
+// RemoveFinalizer removes exactly the given finalizer and keeps the others (and their order).
+//@ func RemoveFinalizer
+//@   tags C13
+//@   loop 1 invariant -1 <= rangeindex && rangeindex < len(finalizers)
+//@   loop 1 invariant forall k int :: 0 <= k && k < len(newFinalizers) ==> newFinalizers[k] != finalizer && contains(finalizers, newFinalizers[k])
+//@   loop 1 invariant forall k int :: 0 <= k && k <= rangeindex && finalizers[k] != finalizer ==> contains(newFinalizers, finalizers[k])
+//@   loop 1 invariant forall k int :: 0 <= k && k < len(finalizers) ==> finalizers[k] == old(finalizers[k])
+//@   ensures [C13] removed: !contains(result, finalizer)
+//@   ensures [C13] others-kept: forall f string :: f != finalizer ==> contains(result, f) == contains(finalizers, f)
+//@   ensures [C13] input-untouched: forall k int :: 0 <= k && k < len(finalizers) ==> finalizers[k] == old(finalizers[k])
